@@ -107,8 +107,10 @@ func init() {
 }
 
 // types whose method set LOOKS like an unpacker but is not one (kinds of the target universe):
-//   unores   Unpack(*Config) without a result      ubad2    Unpack with two parameters
-//   uother   Unpack(int) error                      uvalrc   a valid Unpack on a VALUE receiver
+//
+//	unores   Unpack(*Config) without a result      ubad2    Unpack with two parameters
+//	uother   Unpack(int) error                      uvalrc   a valid Unpack on a VALUE receiver
+//
 // and fields of INTERFACE types with methods: iunp (ucfg.Unpacker), istr (fmt.Stringer), ierr (error)
 type tNoRes struct{ A int }
 
